@@ -414,7 +414,11 @@ def generate_section(section, repo_root, em, res):
             closures = lambda ts: sum(1 for q, x in enumerate(ts) if x in ('|', '||') and (q == 0 or ts[q - 1] in ('(', ',', '=', '{', ';', 'move', 'return', '=>')))
             res.edits.append({'item': owner_early.get(i1) or owner_early.get(i1 - 1) or owner_early.get(i2),
                               # structural edits: a loop or a closure appears or disappears (a new loop has no invariant, a new closure no contract), a function is added
-                              'loops_changed': loops(old_t) != loops(new_t) or closures(old_t) != closures(new_t), 'fns_added': sorted(fns(new_t) - fns(old_t)),
+                              # ... or the string literals of the text change: Verus knows nothing about a literal (its characters, its length)
+                              # until a proof reveals it, and the proof text reveals the literals that were there
+                              'loops_changed': (loops(old_t) != loops(new_t) or closures(old_t) != closures(new_t)
+                                                or {t.text for t in R[j1:j2] if t.kind == 'str'} != {e_toks[p].text for p in idx if e_toks[p].kind == 'str'}),
+                              'fns_added': sorted(fns(new_t) - fns(old_t)),
                               'repo_line': R[j1].line if j1 < len(R) else (R[-1].line if R else 0),
                               'was': tokens_text([e_toks[p] for p in idx])[:200], 'now': tokens_text(R[j1:j2])[:200]})
     dropped_hints |= dropped_nodes
